@@ -39,6 +39,12 @@ CORPUS = [
     ('emails', ['ann@example.com', 'bob.b@example.co.uk', 'c_d@x.org']),
     ('hex', ['0x1f', '0xABCD', '0x0']),
     ('tabs-newlines', ['a\tb', 'c\td', 'e\nf']),
+    # patterns of different lengths sharing a constant: aligned from the right / from the left
+    ('right-aligned-constant', ['ab-12', 'cd-34', '-56', '-78']),
+    ('right-aligned-suffix', ['x.py', 'yy.py', '.py']),
+    ('left-aligned-constant', ['Dr.', 'Dr. Jones', 'Dr. Smith']),
+    ('left-aligned-prefix', ['ID:', 'ID:7', 'ID:42']),
+    ('short-and-long', ['a-', 'b-1']),
 ]
 
 OPTIONS = [
@@ -118,7 +124,9 @@ def corpus_for(run):
         return [(n, ex, on, o) for n, ex in CORPUS for on, o in OPTIONS]
     quick_opts = {'codes': ('plain', 'tag'), 'uk-postcodes': ('plain',), 'mixed-shapes': ('plain',), 'punctuation': ('plain', 'tag'),
                   'ends-in-dollar': ('plain',), 'unicode-letters': ('plain', 'portable'), 'padded': ('plain', 'strip'),
-                  'empty-and-blank': ('plain',), 'underscores': ('extra-letters',), 'repeats': ('plain',), 'tabs-newlines': ('plain',)}
+                  'empty-and-blank': ('plain',), 'underscores': ('extra-letters',), 'repeats': ('plain',), 'tabs-newlines': ('plain',),
+                  'right-aligned-constant': ('plain',), 'right-aligned-suffix': ('plain',), 'left-aligned-constant': ('plain',),
+                  'left-aligned-prefix': ('plain',), 'short-and-long': ('plain',)}
     return [(n, ex, on, o) for n, ex in CORPUS for on, o in OPTIONS if on in quick_opts.get(n, ())]
 
 
